@@ -512,8 +512,23 @@ func c15r5(p *Program, r *Report) {
 		recv := fi.Decl.Recv.List[0].Names[0].Name
 		var loop *ast.ForStmt
 		ast.Inspect(fi.Decl.Body, func(x ast.Node) bool {
-			if f, ok := x.(*ast.ForStmt); ok && f.Cond != nil && loop == nil {
-				if c, isC := ast.Unparen(f.Cond).(*ast.CallExpr); isC && isCallTo(info, c, "(*Iter).Scan") {
+			if f, ok := x.(*ast.ForStmt); ok && loop == nil {
+				// the loop asks Scan for the next row in its condition or in its body (`if !iter.Scan(..) { break }`)
+				scans := false
+				for _, part := range []ast.Node{f.Cond, f.Body} {
+					if part == nil || part == ast.Node((*ast.BlockStmt)(nil)) || part == ast.Node(ast.Expr(nil)) {
+						continue
+					}
+					inspectNoLit(part, func(y ast.Node) bool {
+						if c, isC := y.(*ast.CallExpr); isC && isCallTo(info, c, "(*Iter).Scan") {
+							if rc := recvExpr(c); rc != nil && exprStr(rc) == recv {
+								scans = true
+							}
+						}
+						return true
+					})
+				}
+				if scans {
 					loop = f
 				}
 			}
